@@ -628,7 +628,9 @@ def run_cases(ctx, real, cases, post, layer, rule, nontrivial=None, snapshots=Tr
     def impl_fn(case):
         log = []
         out = real.run_case(case, log, snapshots)
-        logs[core.case_id(case)] = log
+        # keep the log of the ORIGINAL case only (minimisation re-runs shortened variants under the same id)
+        logs.setdefault((core.case_id(case), len(case)), log)
+        logs.setdefault(core.case_id(case), log)
         return out
     bad = ctx.correspondence(layer, "Conn", cases, impl_fn, nontrivial, rule, post=post)
     return logs, bad
